@@ -152,6 +152,17 @@ def main(tier, replay=None):
         a = rand_value(rng) if rng.random() < 0.5 else mixed_text(rng)
         b = rand_value(rng) if rng.random() < 0.4 else mixed_text(rng)
         lp.append((a, b))
+    # numbers a few units in the last place apart (and date-times a millisecond apart): still exactly one of < = > holds
+    import math
+    FL = lambda x: {'t': 'flt', 'r': repr(x)}
+    for _ in range(300 if tier == 'quick' else 10000):
+        x = rng.choice([0.1 + 0.2, 0.3, 1.1 * 3, 3.3, 43789.5, 43789.50000000001, 1e15 + 0.5, 2.0 ** 52 + 1, 1 / 3, 1e-300,
+                        rng.uniform(-1e6, 1e6), rng.uniform(0, 1)])
+        y = x
+        for _ in range(rng.randint(0, 3)):
+            y = math.nextafter(y, math.inf if rng.random() < 0.5 else -math.inf)
+        lp.append((FL(x), FL(y)))
+        lp.append((FL(y), FL(x)))
     for o in laws_obs(lib, lp):
         o['id'] = len(obs) + 1
         obs.append(o)
